@@ -89,7 +89,7 @@ def check_case(case, stats=None, K=oracle.K_QUICK):
             stats.evaluations += 1
         if "error" in res:
             desc = res["error"]["description"]
-            if "out of registers" not in desc:
+            if not oracle.out_of_registers(desc):
                 # the default vector accepted this program: an option may cost registers but must not make
                 # the program unacceptable for any other reason
                 raise Violation("C02:option-changes-acceptance:" + oracle.error_class(desc),
